@@ -690,6 +690,37 @@ func c02Cell(p vbase.Params, r *vbase.Result, scheme string, cache uint, n, repI
 	for _, sh := range []uint{8, 16, 32, 48, 63} {
 		mutA(fmt.Sprintf("relabelled-view-plus-2^%d", sh), qcsHonest, honestAggSig, tv+hotstuff.View(1)<<sh)
 	}
+	if scheme == crypto.NameBLS12 && q >= 2 {
+		// fewer than a quorum of genuine timeout messages (k = 1 .. q-1), their genuine aggregate, and a participant field
+		// that claims a quorum: the real signers plus replicas that have no entry in the QC map
+		for _, k := range []int{1, q - 1} {
+			if k < 1 || k > len(T) {
+				continue
+			}
+			sub := T[:k]
+			qs := map[hotstuff.ID]hotstuff.QuorumCert{}
+			for _, id := range sub {
+				qs[id] = qcOf(id)
+			}
+			if pa := Decompose(w.assemble(aggPieces(sub, tv, qs), nil, 0)); pa.Kind == crypto.NameBLS12 {
+				var bf crypto.Bitfield
+				for _, id := range sub {
+					bf.Add(id)
+				}
+				for _, id := range IDs(n) {
+					if bf.Len() >= q {
+						break
+					}
+					if !bf.Contains(id) {
+						bf.Add(id)
+					}
+				}
+				if rs, err := crypto.RestoreBLS12AggregateSignature(pa.Agg, bf); err == nil && bf.Len() >= q {
+					present(c02Case{Typ: "AggQC", Class: fmt.Sprintf("bls-subquorum-%d-entries-claiming-a-quorum", k), Agg: hotstuff.NewAggregateQC(qs, rs, tv)}, false)
+				}
+			}
+		}
+	}
 	if scheme == crypto.NameBLS12 && len(T) >= 2 {
 		// the participant labels of a BLS aggregate are not what is verified (the keys come from the QC map): relabel them, same
 		// count, swapping out each signer in turn (in particular the one that attests the highest QC) for a replica that did not
